@@ -112,6 +112,7 @@ pub fn poll_cap(bytes: usize, script: &[ReadEv]) -> u32 {
 
 /// B: `Packet::decode(&bytes)`.
 pub fn fe_block<C: Codec>(bytes: &[u8]) -> Fe<C::Packet, C::Err> {
+    crate::runner::beat();
     match guarded(|| C::decode(bytes)) {
         Ok(Ok(Some(pkt))) => Fe::Ok { pkt, consumed: None, total: None, body: None },
         Ok(Ok(None)) => Fe::Incomplete,
